@@ -109,3 +109,23 @@ Definition C16_decision_stmt_any_repush (depth : Z) : Prop :=
     In a jobs -> queue_ok qs (j_queue a) = true ->
     allocate qs qord depth attempt fuel jobs c0 = Ok out ->
     In (b, true) out -> In (a, true) out.
+
+(** * Which jobs a cycle collects (InitializeWithJobs)
+
+    [jobs] is what the status filters let through (ready pod groups with a pending
+    pod), in the order in which Go's map iteration yields them. A job is
+    [eligible] when its queue exists, the queue's parent exists (or the queue is
+    top level) and the queue is a leaf ([queue_ok], the three queue guards of
+    InitializeWithJobs; in a snapshot whose queue map is closed under parents -
+    cleanQueueOrphans / cleanQueueCycles delete every queue with a broken chain -
+    this is "the queue and its whole ancestor chain exist"). Everything else is a
+    "ghost": a pod group of a deleted or misspelt queue, of a queue whose parent is
+    gone, or of a non-leaf queue. The collection is specified declaratively:
+    leaf queue [q] holds the [depth] best of [eligible_of qs q jobs], whatever the
+    order of [jobs] and whatever ghosts stand between them. *)
+Definition eligible (qs : list qinfo) (j : job) : bool := queue_ok qs (j_queue j).
+
+Definition eligible_of (qs : list qinfo) (q : Z) (jobs : list job) : list job :=
+  filter (fun j => eligible qs j && (j_queue j =? q)) jobs.
+
+Definition ghost_free (qs : list qinfo) (jobs : list job) : list job := filter (eligible qs) jobs.
